@@ -12,6 +12,13 @@ def fuzz(name, target, fuzztime, workers=8, timeout=None):
     return {"name": name, "kind": "fuzz", "target": target, "thorough": t}
 
 PROPS = {
+    "C11": {
+        "level": "exploration",
+        "jobs": [
+            rapid("model", "^TestC11$", {"checks": 45, "steps": 20, "shards": 6, "timeout": 600, "shrinktime": "15s"},
+                  {"checks": 500, "steps": 40, "shards": 12, "timeout": 3000, "shrinktime": "60s"}),
+        ],
+    },
     "C16": {
         "level": "exploration",
         "jobs": [
